@@ -252,6 +252,66 @@ func c06LastElement(r *verdict.Run) {
 	r.Set("last_element_doors", len(doors))
 }
 
+// c06SparseRandomKey: RANDOMKEY on keyspaces that hold very few live keys - one to three survivors of a larger
+// population whose other members were deleted, unlinked or expired (dead entries may stay in the table) - asked many
+// times, so that every start position of the emulator's random walk over its table is drawn: each reply must be a
+// live key (model predicate), never nil. distinct = (survivors, population, removal door).
+func c06SparseRandomKey(r *verdict.Run) {
+	c, err := startChild(false)
+	if err != nil {
+		r.Inconclusive("cannot start child")
+		return
+	}
+	defer c.Stop()
+	cases, draws := 0, 0
+	for _, pop := range []int{0, 6, 15, 40} {
+		for _, live := range []int{1, 2, 3} {
+			for _, door := range []string{"DEL", "UNLINK", "PEXPIREAT", "RENAME"} {
+				if pop == 0 && door != "DEL" {
+					continue
+				}
+				d, err := newDiffEnv(r, c, c06ChurnKeys)
+				if err != nil {
+					r.Inconclusive("infra: " + err.Error())
+					return
+				}
+				d.monitor = "sparse-randomkey"
+				ok := true
+				for i := 0; ok && i < live+pop; i++ {
+					_, ok = d.step([]string{"SET", c06ChurnKeys[(i*7+cases)%len(c06ChurnKeys)], "v"})
+				}
+				// the model decides which names are distinct; remove all but the first `live` created ones
+				for i := live; ok && i < live+pop; i++ {
+					k := c06ChurnKeys[(i*7+cases)%len(c06ChurnKeys)]
+					switch door {
+					case "PEXPIREAT":
+						_, ok = d.step([]string{"PEXPIREAT", k, "1"})
+					case "RENAME":
+						// renaming onto a survivor removes one name and keeps the survivor's name alive
+						_, ok = d.step([]string{"RENAME", k, c06ChurnKeys[cases%len(c06ChurnKeys)]})
+					default:
+						_, ok = d.step([]string{door, k})
+					}
+				}
+				n := tierPick(r, 120, 600)
+				for i := 0; ok && i < n; i++ {
+					_, ok = d.step([]string{"RANDOMKEY"})
+					draws++
+				}
+				if ok {
+					_, ok = d.step([]string{"DBSIZE"})
+				}
+				r.Eval(1)
+				r.Distinct(fmt.Sprintf("sparse-randomkey/live%d/pop%d/%s", live, pop, door))
+				d.close()
+				cases++
+			}
+		}
+	}
+	r.Set("sparse_randomkey_cases", cases)
+	r.Set("sparse_randomkey_draws", draws)
+}
+
 var c06Patterns = []string{"*", "k*", "?1", "k[ab]*", "k[a-c]1", "k[^a]1", "k\\*", "*1", "k?1", "[a-z]*", "kb*", "*[0-9]", "k**1", "nomatch", "k[b-a]1", "K*", "k[abc", "*\\", "k[]1", "*a*",
 	// names are bytes: one multi-byte character is several positions, two different bytes that are not UTF-8 are different
 	"w?", "w??", "w???", "w\xc3\xa9*", "w\xff*", "w\xfe*", "w[\xfe]*", "w[^\xff]*", "w[\xfd-\xff]?", "*\xa9?"}
@@ -370,11 +430,12 @@ func c06Gen(rng *rand.Rand, m *model.Model, keys []string) []string {
 func checkC06(r *verdict.Run) {
 	r.Rule = "(1) exhaustive matrix: every data-command template (a canonical valid invocation of each command plus 130 invocations that fail on their arguments) x target key of every type (missing, string, list, hash, set, a string holding the empty value, and the typed ones with a TTL) on a fresh emulator, reply and full state vs the reference model, failed commands inert; " +
 		"(2) removing the last element through 30 different doors, then EXISTS/TYPE/KEYS/SCAN/DBSIZE/LLEN/HLEN/SCARD vs model; " +
-		"(3) random keyspace sequences (DEL/UNLINK/EXISTS/TOUCH/TYPE/RENAME/RENAMENX/COPY/KEYS with glob patterns/RANDOMKEY/DBSIZE/SORT with options) mixed with writes of every type; (4) keyspace churn: sequences of 400-1200 steps creating, deleting, renaming, copying and expiring 41 key names so that the keyspace table grows, shrinks and ages, KEYS */DBSIZE compared after every step. distinct = matrix cells + doors + (command+options, prior class, outcome)"
+		"(3) random keyspace sequences (DEL/UNLINK/EXISTS/TOUCH/TYPE/RENAME/RENAMENX/COPY/KEYS with glob patterns/RANDOMKEY/DBSIZE/SORT with options) mixed with writes of every type; (4) keyspace churn: sequences of 400-1200 steps creating, deleting, renaming, copying and expiring 41 key names so that the keyspace table grows, shrinks and ages, KEYS */DBSIZE compared after every step; (5) sparse keyspaces: one to three survivors of populations of 0-40 keys removed by DEL/UNLINK/PEXPIREAT/RENAME, RANDOMKEY drawn 120 (thorough 600) times, every reply must be a live key. distinct = matrix cells + doors + (command+options, prior class, outcome)"
 	types := []string{"missing", "string", "list", "hash", "set", "string-empty", "string+ttl", "list+ttl", "hash+ttl", "set+ttl"}
 	c06Matrix(r, types)
 	r.SetExhaustive(false)
 	c06LastElement(r)
+	c06SparseRandomKey(r)
 	runDiffSequences(r, tierPick(r, 200, 4000), func(rng *rand.Rand) int { return 40 + rng.Intn(40) },
 		[]string{"ka1", "kb1", "kc1", "ka2", "w_1", "w_2", "w_3", "w_a", "w_b", "w\xc3\xa9", "w\xffz", "w\xfez"}, [][]string{{"SET", "ka1", "s"}, {"RPUSH", "kb1", "3", "1", "2"}, {"SADD", "kc1", "2", "3", "1"}, {"HSET", "ka2", "f", "v"}, {"SET", "w_1", "30"}, {"SET", "w_2", "20"}, {"SET", "w_3", "10"}}, c06Gen)
 	runDiffSequencesN(r, tierPick(r, 24, 240), 2, 10000, func(rng *rand.Rand) int { return 400 + rng.Intn(800) },
